@@ -127,7 +127,7 @@ def native_replay(gosmt, mpath, m, entry, replay_path, timeout=600):
 def interpreted_replay(gosmt, mpath, entry, replay_path, v):
     tmp_out = tempfile.mktemp(prefix="gosmt-replay-", suffix=".json")
     try:
-        r = subprocess.run([gosmt, "run", "-manifest", mpath, "-only", entry, "-replay", replay_path, "-out", tmp_out],
+        r = subprocess.run([gosmt, "run", "-manifest", mpath, "-only", entry, "-replay", replay_path, "-repo", REPO, "-out", tmp_out],
                            cwd=ROOT, env=GOENV, capture_output=True, text=True, timeout=600)
         res = json.load(open(tmp_out))
         for h in res.get("harnesses", []):
@@ -175,8 +175,10 @@ def cmd_check(pid, tier, seed):
     t0 = time.time()
     gosmt = ensure_built()
     known = load_known()
-    os.makedirs(os.path.join(ROOT, "evidence"), exist_ok=True)
-    rdir = os.path.join(ROOT, "replays", pid)
+    # VERIF_OUT redirects evidence and replays (used when a seeded change is tried on a scratch copy)
+    OUT = os.environ.get("VERIF_OUT", ROOT)
+    os.makedirs(os.path.join(OUT, "evidence"), exist_ok=True)
+    rdir = os.path.join(OUT, "replays", pid)
     os.makedirs(rdir, exist_ok=True)
     all_h = []
     lines = []
@@ -193,7 +195,7 @@ def cmd_check(pid, tier, seed):
         return 2
     for mpath, m in mans:
         tmp_out = tempfile.mktemp(prefix="gosmt-out-", suffix=".json")
-        cmd = [gosmt, "run", "-manifest", mpath, "-tier", tier, "-out", tmp_out]
+        cmd = [gosmt, "run", "-manifest", mpath, "-tier", tier, "-repo", REPO, "-out", tmp_out]
         if os.environ.get("VERIF_WORKERS"):
             cmd += ["-workers", os.environ["VERIF_WORKERS"]]
         r = subprocess.run(cmd, cwd=ROOT, env=GOENV, capture_output=True, text=True)
@@ -334,7 +336,7 @@ def cmd_check(pid, tier, seed):
         "wall_s": round(wall, 2),
         "violations": len(violations),
     }
-    json.dump(ev, open(os.path.join(ROOT, "evidence", pid + ".json"), "w"), indent=1)
+    json.dump(ev, open(os.path.join(OUT, "evidence", pid + ".json"), "w"), indent=1)
     if violations:
         return 1
     if inconclusive:
